@@ -4,6 +4,8 @@ import (
 	"bufio"
 	"fmt"
 	"io"
+	"math"
+	"math/big"
 	"reflect"
 	"strconv"
 	"strings"
@@ -175,14 +177,15 @@ func parseNumber(number string) (LNumber, error) {
 		digits = digits[1:]
 	}
 	if len(digits) > 2 && digits[0] == '0' && (digits[1] == 'x' || digits[1] == 'X') {
-		v, err := strconv.ParseUint(digits[2:], 16, LNumberBit)
-		if err != nil {
-			return LNumber(0), err
+		// any number of digits: the value is the nearest number, as for a decimal numeral
+		v, ok := parseDigits(digits[2:], 16)
+		if !ok {
+			return LNumber(0), &strconv.NumError{Func: "ParseUint", Num: number, Err: strconv.ErrSyntax}
 		}
 		if neg {
-			return -LNumber(v), nil
+			return -v, nil
 		}
-		return LNumber(v), nil
+		return v, nil
 	}
 	for i := 0; i < len(digits); i++ {
 		c := digits[i]
@@ -197,6 +200,43 @@ func parseNumber(number string) (LNumber, error) {
 		}
 	}
 	return LNumber(v), nil
+}
+
+// parseDigits reads a non-empty run of digits of the given base (2..36) and nothing else.
+func parseDigits(str string, base int) (LNumber, bool) {
+	if len(str) == 0 {
+		return 0, false
+	}
+	v, exact := uint64(0), true
+	for i := 0; i < len(str); i++ {
+		c := str[i]
+		d := 36
+		switch {
+		case '0' <= c && c <= '9':
+			d = int(c - '0')
+		case 'a' <= c && c <= 'z':
+			d = int(c-'a') + 10
+		case 'A' <= c && c <= 'Z':
+			d = int(c-'A') + 10
+		}
+		if d >= base {
+			return 0, false
+		}
+		if v > (math.MaxUint64-uint64(d))/uint64(base) {
+			exact = false
+		}
+		v = v*uint64(base) + uint64(d)
+	}
+	if exact {
+		return LNumber(v), true
+	}
+	// more than 64 bits: round the exact integer once
+	bi, ok := new(big.Int).SetString(str, base)
+	if !ok {
+		return 0, false
+	}
+	f, _ := new(big.Float).SetInt(bi).Float64()
+	return LNumber(f), true
 }
 
 func popenArgs(arg string) (string, []string) {
